@@ -2,7 +2,7 @@
    exactly the observations of the ordered byte-string map. *)
 From Common Require Import Bytes Outcome.
 From Trie Require Import Nibbles Node Encode Model Spec NibblesProofs Sem InsertProofs DeleteProofs
-     BuildProofs MapProofs QueryProofs ClearProofs LimitProofs SpecProofs GoSpec GoPrefixProofs.
+     BuildProofs MapProofs QueryProofs ClearProofs LimitProofs SpecProofs GoSpec GoPrefixProofs OrderProofs.
 From C02 Require Import Model Guards.
 From Coq Require Import Arith Lia.
 
@@ -53,8 +53,8 @@ Proof.
       destruct (guard_limit_zero m p 0) eqn:Gz; [discriminate|].
       destruct (limit_zero_both t m p Gz) as [Et Eb]. rewrite Et, Eb. cbn [fst snd]. split; auto.
       now rewrite (listing_rep _ _ R).
-    + destruct (guard_limit_order_go m p l) eqn:Go; [discriminate|].
-      destruct (guard_trim_limit m p l) eqn:Gt; [discriminate|].
+    + destruct (guard_trim_limit m p l) eqn:Gt; [discriminate|].
+      destruct (guard_limit_order_go m p l) eqn:Go; [discriminate|].
       destruct (Rep_clear_prefix_limit_go t m p l R Z Go) as (R' & Ed & Ea).
       rewrite (go_limit_is_bm m p l Z Gt) in R', Ed, Ea.
       destruct (trie_clear_prefix_limit t p l) as [[t' d] a].
@@ -226,6 +226,26 @@ Proof.
     { apply is_prefix_refl. }
     cbn [entries]. fold (E (handle_deletion pk None cs pk)). fold (E (Branch pk (Some bv) cs)).
     rewrite (entries_lookup_ext _ _ Hl), !E_branch, !shift_length, !app_length. simpl. lia.
+Qed.
+
+
+(* limited clear inside the order guard (evaluated on the keys the code matches), when the trimmed
+   prefix does not change the map's answer: the keys listed afterwards differ from the map's *)
+Theorem guard_limit_order_exact t m p l : Rep t m -> l <> 0%N ->
+  guard_limit_order_go m p l = true -> guard_trim_limit m p l = false ->
+  snd (trie_step repaired t (OpClearLimit p l)) <> snd (bm_step m (OpClearLimit p l)).
+Proof.
+  intros R Z Go Gt. destruct (order_guard_exact_keys t m p l R Z Go) as [Inc D].
+  cbn [trie_step bm_step repaired i_clear_limit i_entries].
+  pose proof (trim_limit_agree m p l Gt) as Ag. rewrite !clear_limit_by_spec in Ag. inversion Ag as [[A1 A2 A3]].
+  rewrite bm_clear_prefix_limit_spec.
+  destruct (trie_clear_prefix_limit t p l) as [[t' d] a]. cbn [fst snd] in *.
+  intros Eq. inversion Eq as [[E1 E2 E3]]. apply D. rewrite A1.
+  apply (f_equal (map fst)) in E3. unfold trie_entries, bm_listing in E3. rewrite !map_map in E3. cbn [fst] in E3.
+  change (fun x : list byte * value => fst x) with (@fst (list byte) value) in E3.
+  change (bmatch p) with (bmatch_b p) in E3. rewrite <- E3, map_map.
+  apply map_ext_in. intros [k v] H. apply Inc in H. apply kv_of_bmap_in in H as (kb & -> & _).
+  cbn [fst]. now rewrite nibbles_to_key_le_of_bytes.
 Qed.
 
 (* ---- the trie is the ordered map under the Go matching rule, also inside prefix-trim and
